@@ -399,6 +399,16 @@ def rule_to_timings(chk: Check, model: Model, rid: str):
         ok = ok and seqv[0] == "call" and seqv[1] == "int" and any(x == ("const", "seq") for x in T.walk(seqv)) and any(x[0] == "index" and x[1] == S("Gs") and x[2] == eps for x in T.walk(seqv))
         chk.add(rid, "index lists: (eps, partition) and (eps, vertex seq)", bool(ok), "slots.append((eps_idx, partition_idx)) and fill.append((eps_idx, int(G.nodes[n2]['seq']))) with G = Gs[eps_idx]", chk.loc(fi))
         g = sl[0].guard
+        # the horizon: supervisor steps that exist in *every* episode (min over the episode axis of the padded seq >= 0)
+        hor = [x for x in T.walk(g) if x[0] == "call" and isinstance(x[1], tuple) and x[1][0] == "attr" and x[1][2] == "sum"]
+        okh = False
+        if hor:
+            w = hor[0][1][1]
+            w = T.where_to_ite(w) if w[0] == "call" else w
+            mins = [x for x in T.walk(hor[0]) if x[0] == "call" and isinstance(x[1], tuple) and x[1][0] == "attr" and x[1][2] in ("min", "max") and mentions(x, "seq")]
+            okh = len(mins) == 1 and mins[0][1][2] == "min" and dict(mins[0][3]).get("axis") == T.const(-2) and mentions(mins[0], "supervisor")
+        chk.add(rid, "horizon = supervisor steps present in every episode", okh, f"num_partitions = {T.show(hor[0])[:160] if hor else None}, expected where(seq.min(axis=-2) >= 0, 1, 0).sum() over the "
+                "supervisor's padded seq (with max, shorter episodes run the supervisor on partitions they do not have)", chk.loc(fi))
         ok = g == fl[0].guard and g[0] in ("lt0",) and mentions(g, "sum")
         chk.add(rid, "entries beyond the horizon are skipped", ok, f"entries are recorded under {T.show(g)[:160]}, expected partition_idx < num_partitions for both lists", chk.loc(fi))
     else:
